@@ -538,16 +538,21 @@ class Inliner:
     def _inline_new_properties(self, fn: ast.FunctionDef, cls: Optional[ast.ClassDef]):
         """`self.<p>` where <p> is a @property of this class that the reference tree does not have and whose body is a
         single `return <expr>`: the expression is read in place (a property somebody introduced to name a condition)."""
-        if cls is None:
-            return
         props: Dict[str, ast.expr] = {}
-        for m in cls.body:
+        for m in (cls.body if cls is not None else []):
             if isinstance(m, ast.FunctionDef) and m is not fn and [ast.unparse(d) for d in m.decorator_list] == ["property"] \
                     and self.unknown("%s.%s.%s" % (self.mod, cls.name, m.name)) and len(m.args.args) == 1:
                 e = self._single_expr(m)
                 if e is not None and m.args.args[0].arg == "self":
                     props[m.name] = e
-        if not props:
+        # new properties of *other* classes, identified by a package-wide unique name (as for foreign helpers)
+        fprops: Dict[str, Tuple[ast.expr, str]] = {}
+        for nm_, (fq_, fdef_, _is_m, _mod) in self.foreign.items():
+            if [ast.unparse(d) for d in fdef_.decorator_list] == ["property"] and len(fdef_.args.args) == 1 and fdef_ is not fn:
+                e_ = self._single_expr(fdef_)
+                if e_ is not None and (cls is None or fdef_ not in cls.body):
+                    fprops[nm_] = (e_, fdef_.args.args[0].arg)
+        if not props and not fprops:
             return
         inl = self
 
@@ -558,6 +563,11 @@ class Inliner:
                     inl.count += 1
                     inl.inlined.add("%s.%s.%s" % (inl.mod, cls.name, n.attr))
                     return ast.copy_location(copy.deepcopy(props[n.attr]), n)
+                if isinstance(n.ctx, ast.Load) and n.attr in fprops and _simple(n.value) and not (isinstance(n.value, ast.Name) and n.value.id == "self"):
+                    body_, selfname_ = fprops[n.attr]
+                    inl.count += 1
+                    inl.inlined.add(inl.foreign[n.attr][0])
+                    return ast.copy_location(_Subst({selfname_: n.value}, {}).visit(copy.deepcopy(body_)), n)
                 return n
 
             def visit_FunctionDef(self, n):
@@ -1179,6 +1189,15 @@ def preprocess(module_name: str, tree: ast.Module, known: Optional[Set[str]], fo
         return set(), 0
     if fold_new_constants(module_name, tree):
         ast.fix_missing_locations(tree)
+    # len("//") of a string literal (typically after a new named constant was folded in) is its length
+    class _LenLit(ast.NodeTransformer):
+        def visit_Call(self, c):
+            self.generic_visit(c)
+            if isinstance(c.func, ast.Name) and c.func.id == "len" and len(c.args) == 1 and not c.keywords \
+                    and isinstance(c.args[0], ast.Constant) and isinstance(c.args[0].value, (str, bytes)):
+                return ast.copy_location(ast.Constant(value=len(c.args[0].value)), c)
+            return c
+    _LenLit().visit(tree)
     restore_renamed_fields(module_name, tree)
     inl = Inliner(module_name, tree, known, foreign)
     inl.run()
